@@ -417,17 +417,24 @@ def overlay (top bottom : Img) : Img := fun a =>
   | some x => some x
   | none => bottom a
 
+/-- The state of an `ElfLinker`.  `placed` lists every placement (object, base) in the order the
+    objects were mapped; loading a name again places it again (the `loaded` map of the Rust struct
+    keeps the latest placement per name, see `latestByName`). -/
 structure LinkState where
-  loaded : List (ElfDesc × Nat)      -- in load order, with bases
+  placed : List (ElfDesc × Nat)
   mem : Img
   tab : SymTab
   next : Nat
 
-/-- `ElfLinker::load_elf_and_dependencies`: map the object, export its symbols, then load the
-    DT_NEEDED objects that are not loaded yet (depth first, each at the next library base). -/
-def loadElf (files : List ElfDesc) : Nat → String → Nat → LinkState → Res LinkState
+def LinkState.empty : LinkState := { placed := [], mem := fun _ => none, tab := [], next := DEFAULT_LIB_BASE }
+
+/-- `ElfLinker::load_elf_and_dependencies`, the part that decides WHAT is placed WHERE: the object,
+    then (depth first) the DT_NEEDED objects whose names are not placed yet, each at the next library
+    base.  The accumulator is (all placements so far, next library address). -/
+def planLoad (files : List ElfDesc) :
+    Nat → String → Nat → List (ElfDesc × Nat) × Nat → Res (List (ElfDesc × Nat) × Nat)
   | 0, _, _, _ => .err .other
-  | fuel + 1, name, B, st =>
+  | fuel + 1, name, B, acc =>
     match files.find? (fun d => d.name == name) with
     | none => .err .other                               -- the file does not exist
     | some d =>
@@ -438,25 +445,50 @@ def loadElf (files : List ElfDesc) : Nat → String → Nat → LinkState → Re
       match memoryRes d B with
       | .err e => .err e
       | .panic => .panic
-      | .ok img =>
-        let st1 : LinkState :=
-          { loaded := st.loaded ++ [(d, B)], mem := overlay img st.mem,
-            tab := st.tab ++ exportedTab d B, next := st.next }
-        d.needed.foldl (fun (acc : Res LinkState) n => acc.bind (fun s =>
-            if s.loaded.any (fun x => x.1.name == n) then .ok s
-            else loadElf files fuel n (s.next + LIB_BASE_STEP) { s with next := s.next + LIB_BASE_STEP })) (.ok st1)
+      | .ok _ =>
+        d.needed.foldl (fun (r : Res (List (ElfDesc × Nat) × Nat)) n => r.bind (fun s =>
+            if s.1.any (fun x => x.1.name == n) then .ok s
+            else planLoad files fuel n (s.2 + LIB_BASE_STEP) (s.1, s.2 + LIB_BASE_STEP)))
+          (.ok (acc.1 ++ [(d, B)], acc.2))
 
-/-- `ElfLinker::new(main)` with relocations enabled: everything is loaded first, then every loaded
-    object is relocated (in load order) against the complete symbol table; the memory's endianness
-    is the main file's. -/
+/-- every new placement is mapped over what is there (later on top) -/
+def mapAll (newly : List (ElfDesc × Nat)) (m : Img) : Img :=
+  newly.foldl (fun m x => overlay (image x.1 x.2) m) m
+
+/-- the exported symbols of the placements, in order (the first definition of a name wins) -/
+def globalTab (placed : List (ElfDesc × Nat)) : SymTab :=
+  placed.flatMap (fun x => exportedTab x.1 x.2)
+
+/-- each new placement is relocated, in load order, against the same table -/
+def relocAll (newly : List (ElfDesc × Nat)) (big : Bool) (tab : SymTab) (m : Img) : Res Img :=
+  newly.foldl (fun (acc : Res Img) x => acc.bind (fun m => relocs x.1 x.2 big tab m)) (.ok m)
+
+/-- the second half of `load_elf`: the new placements are mapped, their exported symbols join the
+    table (existing names are kept), and they - only they - are relocated, once. -/
+def finishLoad (st : LinkState) (newly : List (ElfDesc × Nat)) (next : Nat) (big : Bool) : Res LinkState :=
+  let tab1 := st.tab ++ globalTab newly
+  (relocAll newly big tab1 (mapAll newly st.mem)).map
+    (fun m => { placed := st.placed ++ newly, mem := m, tab := tab1, next := next })
+
+/-- the public `ElfLinker::load_elf(name, base)` (relocations enabled). -/
+def callLoad (files : List ElfDesc) (big : Bool) (st : LinkState) (name : String) (B : Nat) : Res LinkState :=
+  (planLoad files (files.length + 1) name B (st.placed, st.next)).bind fun r =>
+    finishLoad st (r.1.drop st.placed.length) r.2 big
+
+/-- a history of `load_elf` calls on one linker -/
+def runCalls (files : List ElfDesc) (big : Bool) : LinkState → List (String × Nat) → Res LinkState
+  | st, [] => .ok st
+  | st, c :: cs => (callLoad files big st c.1 c.2).bind (fun st' => runCalls files big st' cs)
+
+/-- `ElfLinker::new(main)`: the memory's endianness is the main file's; `load_elf(main, 0)`. -/
 def link (files : List ElfDesc) (main : String) : Res LinkState :=
   match files.find? (fun d => d.name == main) with
   | none => .err .other
-  | some d0 =>
-    (loadElf files (files.length + 1) main 0
-      { loaded := [], mem := fun _ => none, tab := [], next := DEFAULT_LIB_BASE }).bind fun st =>
-    (st.loaded.foldl (fun (acc : Res Img) x => acc.bind (fun m => relocs x.1 x.2 (d0.enc == .msb) st.tab m)) (.ok st.mem)).map
-      (fun m => { st with mem := m })
+  | some d0 => callLoad files (d0.enc == .msb) LinkState.empty main 0
+
+/-- the `loaded` map of the Rust struct: the latest placement of every name -/
+def latestByName (placed : List (ElfDesc × Nat)) : List (ElfDesc × Nat) :=
+  placed.foldl (fun acc x => acc.filter (fun y => y.1.name != x.1.name) ++ [x]) []
 
 /-! ### the definition the property states for linked objects
 
@@ -466,9 +498,6 @@ def link (files : List ElfDesc) (main : String) : Res LinkState :=
 def baseImage : List (ElfDesc × Nat) → Img
   | [] => fun _ => none
   | (d, B) :: rest => overlay (baseImage rest) (image d B)
-
-def globalTab (placed : List (ElfDesc × Nat)) : SymTab :=
-  placed.flatMap (fun x => exportedTab x.1 x.2)
 
 /-- the relocations of `d` that name a symbol and store its address (x86). -/
 def Rel.namesSymbolX86 (r : Rel) : Bool :=
